@@ -236,7 +236,20 @@ def run_case(case):
                     _evaluate(corrs[c], what, x)
             v = VALUES[op["attr"]][op["v"]]
             if op["attr"] == "j_function":
-                setattr(corrs[c], "j_function", np.vectorize(JFUNS[v]))
+                # the replaced function object is released by the caller; the new function may then get the SAME id
+                # (CPython re-uses the freed block at once) - provoked deliberately: an identity-keyed cache must not
+                # take the new function for the old one (finding F-20d)
+                old_id = id(corrs[c].j_function)
+                corrs[c].j_function = np.vectorize(JFUNS[v])
+                keep = []
+                for _ in range(20):
+                    cand = np.vectorize(JFUNS[v])
+                    if id(cand) == old_id:
+                        corrs[c].j_function = cand
+                        out.label("new-function-reuses-id-of-replaced-one")
+                        break
+                    keep.append(cand)
+                del keep
             else:
                 setattr(corrs[c], op["attr"], v)
             params[c] = dict(params[c], **{op["attr"]: v})
